@@ -1426,7 +1426,7 @@ pub fn property() -> Property {
             "restore of a checkpoint already removed by retention is judged only as: Ok implies its recording, Err implies live state unchanged".into(),
         ],
         parts: vec![
-            Part { name: "hist", run: run_hist, quick: Budget::Random { cases: 20_000, bytes: 200 }, thorough: Budget::Random { cases: 600_000, bytes: 200 }, min_nontrivial_pct: 8 },
+            Part { name: "hist", run: run_hist, quick: Budget::Random { cases: 200_000, bytes: 200 }, thorough: Budget::Random { cases: 1_000_000, bytes: 200 }, min_nontrivial_pct: 8 },
             Part { name: "hist-exh4", run: run_hist, quick: Budget::Exhaustive { param: 4 }, thorough: Budget::Exhaustive { param: 4 }, min_nontrivial_pct: 0 },
             Part { name: "hist-exh5", run: run_hist, quick: Budget::Exhaustive { param: 5 }, thorough: Budget::Exhaustive { param: 5 }, min_nontrivial_pct: 0 },
             Part { name: "hist-exh6", run: run_hist, quick: Budget::Skip, thorough: Budget::Exhaustive { param: 6 }, min_nontrivial_pct: 0 },
